@@ -180,8 +180,12 @@ class Collector:
                         prov = label
         if rid == "import-dotted" and recorded and h is not None:
             # `import a.b` binds `a`: the handler must reduce the alias name to its first component
-            if not any(isinstance(n, ast.Call) and isinstance(n.func, ast.Attribute) and n.func.attr == "split" and n.args and isinstance(n.args[0], ast.Constant)
-                       and n.args[0].value == "." for hh in [h] + [self.handlers[d] for d in h.delegates if d in self.handlers] for n in ast.walk(hh.fn)):
+            def first_component(n):
+                """<name>.split(".")[0] / .split(".", 1)[0] / .partition(".")[0]: the index matters as much as the split"""
+                return isinstance(n, ast.Subscript) and isinstance(n.slice, ast.Constant) and n.slice.value == 0 and isinstance(n.value, ast.Call) \
+                    and isinstance(n.value.func, ast.Attribute) and n.value.func.attr in ("split", "partition") and n.value.args \
+                    and isinstance(n.value.args[0], ast.Constant) and n.value.args[0].value == "."
+            if not any(first_component(n) for hh in [h] + [self.handlers[d] for d in h.delegates if d in self.handlers] for n in ast.walk(hh.fn)):
                 recorded, via = False, (via or "") + " (the dotted module path is recorded instead of its first component)"
         return {"recorded": recorded and blocked is None, "provenance": prov if recorded and blocked is None else None,
                 "blocked_by": blocked, "via": via, "handler": h.name if h else None, "class": tcls,
